@@ -232,7 +232,38 @@ func (nb *nativeBuilder) run(entry string, params map[string]int, inputs []Input
 func (nb *nativeBuilder) cleanup() {
 	if nb.bin != "" {
 		os.Remove(nb.bin)
+		os.Remove(nb.bin + ".race")
 	}
+}
+
+// runRace builds the replay binary with the race detector and runs a witness entry.
+func (nb *nativeBuilder) runRace(entry string) (string, error) {
+	if err := nb.build(); err != nil {
+		return "", err
+	}
+	// the witness must be registered: add it to the dispatcher by regenerating it
+	genPath := filepath.Join(nb.workDir, "replay_test.go")
+	src, _ := os.ReadFile(genPath)
+	i := strings.LastIndex(entry, ".")
+	pkg, fn := entry[:i], entry[i+1:]
+	line := fmt.Sprintf("\t%q: %s.%s,\n", entry, alias(pkg), fn)
+	if !strings.Contains(string(src), line) {
+		s := strings.Replace(string(src), "var entries = map[string]func(){\n", "var entries = map[string]func(){\n"+line, 1)
+		os.WriteFile(genPath, []byte(s), 0o644)
+	}
+	bin := nb.bin + ".race"
+	cmd := exec.Command("go", "test", "-c", "-race", "-vet=off", "-tags=verif", "-overlay", filepath.Join(nb.workDir, "overlay.json"), "-o", bin, "./zzverif/replaymain")
+	cmd.Dir = repoDir
+	cmd.Env = append(os.Environ(), "GOFLAGS=-mod=mod", "GOPROXY=off", "GOSUMDB=off", "GOTOOLCHAIN=local", "CGO_ENABLED=1")
+	cmd.Env = append(cmd.Env, shimEnv()...)
+	if out, err := cmd.CombinedOutput(); err != nil {
+		return "", fmt.Errorf("race build failed: %v\n%s", err, out)
+	}
+	run := exec.Command(bin, "-test.run", "^TestReplay$", "-test.timeout", "300s")
+	run.Dir = nb.workDir
+	run.Env = append(os.Environ(), "VERIF_ENTRY="+entry, "VERIF_PARAMS={}", "GORACE=halt_on_error=0")
+	out, _ := run.CombinedOutput()
+	return string(out), nil
 }
 
 func sameStrings(a, b []string) bool {
@@ -485,6 +516,17 @@ func cmdCheck(args []string) {
 			for _, f := range nfails {
 				if labelsMatch(f, v.Label) {
 					reproduced = true
+				}
+			}
+			if strings.HasPrefix(v.Label, "lockset:") {
+				// a lockset finding is confirmed natively by the entry's companion
+				// "<Fn>Race" witness under the race detector
+				out, rerr := nb.runRace(entryName + "Race")
+				if rerr != nil {
+					raw = rerr.Error()
+				} else {
+					raw = out
+					reproduced = strings.Contains(out, "WARNING: DATA RACE")
 				}
 			}
 			if !reproduced {
